@@ -113,6 +113,15 @@ ReadPrefixed(s, v) ==
              THEN Step(s, name, 0, 0, "ok", cnt, SubSeq(Content, Abs(s) + w + 1, Abs(s) + w + cnt),
                        SetPos(s, streams[s].pos + w + cnt), FALSE)
              ELSE Step(s, name, 0, 0, "err", 0, <<>>, streams, TRUE)
+\* fixed-size values (1, 2, 4, 8 bytes) and containers of n such elements consume exactly their encoded size, or fail like a raw read
+Widths == <<1, 2, 4, 8>>
+ReadValue(s, wi) == LET w == Widths[wi]  name == "ReadValue" \o ToString(8 * w) IN
+                    IF w > Rem(s) THEN Fail(s, name, 0, 0)
+                    ELSE Step(s, name, 0, 0, "ok", w, Bytes(s, w), SetPos(s, streams[s].pos + w), FALSE)
+ReadContainer(s, n, wi) == LET w == Widths[wi]  name == "ReadContainer" \o ToString(8 * w) IN
+                           IF ~IsSmall(n) THEN FALSE                     \* element counts are small (the container is resized by the caller)
+                           ELSE IF n * w > Rem(s) THEN Fail(s, name, n, 0)
+                           ELSE Step(s, name, n, 0, "ok", n * w, Bytes(s, n * w), SetPos(s, streams[s].pos + n * w), FALSE)
 \* null-terminated string with a maximum count m (argument): characters are consumed one at a time until a
 \* NUL (consumed, not returned) or m characters; running off the end first is an error (position free)
 RECURSIVE ScanNul(_, _, _)
@@ -136,6 +145,7 @@ Next ==
         \/ SliceHere(s, a) \/ ReadCString(s, a)
   \/ \E s \in Live : SeekEnd(s) \/ SeekBeginning(s)
   \/ \E s \in Live, v \in 1..Len(PrefixVariants) : ReadPrefixed(s, v)
+  \/ \E s \in Live, wi \in 1..Len(Widths) : ReadValue(s, wi) \/ \E n \in 0..3 : ReadContainer(s, n, wi)
   \/ \E s \in Live, a \in Arg, b \in Arg : SliceAt(s, a, b)
   \/ Drop
 Spec == Init /\ [][Next]_streams
